@@ -25,7 +25,8 @@ FUNCTIONS = REQUIRED_FUNCTIONS
 REQUIRED_TAGS = ["kind:np.int64", "kind:np.float64", "kind:np.complex128", "kind:int", "kind:float", "kind:complex", "kind:bool", "kind:str",
                  "kind:list", "kind:array:i", "kind:array:f", "kind:array:c", "kind:sympy", "options", "options-list", "np-int-modes",
                  "neg-zero", "subnormal", "huge", "no-arglist",
-                 "twin-array:same-object", "twin-array:equal-other-dtype", "twin-array:zeros-other-dtype", "twin-array:equal-copy"]
+                 "twin-array:same-object", "twin-array:equal-other-dtype", "twin-array:zeros-other-dtype", "twin-array:equal-copy", "twin-array:same-bytes-other-shape",
+                 "layout:transpose", "layout:fortran", "layout:flip-rows", "layout:strided"]
 ASSUMPTIONS = ["supported values as listed in the property; lists only in keyword position and options (no script can denote a positional list)",
                "names are valid NAME tokens (identifier generator); strings are printable ASCII without double quote"]
 
@@ -129,8 +130,13 @@ class Builder:
                 if op == "*":
                     return a * b
                 return a / (b if b != 0 else 1)
-            if c < 0.9:
+            if c < 0.85:
                 return term(dd - 1) ** r.choice([2, 3, -1, -2])
+            if c < 0.92:
+                # a number raised to a symbolic power, possibly negated
+                base = r.choice([sym.Float(2.5), sym.Float(0.5), sym.Integer(2), sym.Float(1e-05), sym.Float(1.5e22), sym.Integer(10)])
+                e_ = base ** (self.symbol() + r.choice([0, 1]))
+                return -e_ if r.random() < 0.6 else e_
             return -term(dd - 1)
 
         for _ in range(20):
@@ -152,12 +158,17 @@ class Builder:
         if prev and r.random() < 0.3:
             # twins: arrays that are equal to an earlier one in some sense (same object, equal values in another dtype, same zero bytes)
             a = r.choice(prev)
-            how = r.choice(["same-object", "equal-other-dtype", "zeros-other-dtype", "equal-copy"])
+            how = r.choice(["same-object", "equal-other-dtype", "zeros-other-dtype", "equal-copy", "same-bytes-other-shape"])
             self.tags.add("twin-array:" + how)
             if how == "same-object":
                 return a
             if how == "equal-copy":
                 return a.copy()
+            if how == "same-bytes-other-shape":
+                b = np.ascontiguousarray(a).reshape(a.shape[::-1]) if a.shape[0] != a.shape[1] else np.ascontiguousarray(a).reshape(1, -1)
+                self.tags.add("kind:array:" + b.dtype.kind)
+                prev.append(b)
+                return b
             if how == "equal-other-dtype":
                 if a.dtype.kind == "i" and abs(a).max() < 2 ** 50:
                     b = a.astype(np.float64 if r.random() < 0.5 else np.complex128)
@@ -187,6 +198,25 @@ class Builder:
             a = np.array([[self.c() for _ in range(cols)] for _ in range(rows)], dtype=np.complex128)
         if r.random() < 0.1:
             a = np.zeros_like(a)
+        c_ = r.random()
+        if c_ < 0.2:
+            # arrays that are not stored in C order: transposes, Fortran order, reversed views
+            lay = r.choice(["transpose", "fortran", "flip-rows", "flip-cols", "conj-transpose", "strided"])
+            self.tags.add("layout:" + lay)
+            if lay == "transpose":
+                a = a.T
+            elif lay == "fortran":
+                a = np.asfortranarray(a)
+            elif lay == "flip-rows":
+                a = a[::-1]
+            elif lay == "flip-cols":
+                a = a[:, ::-1]
+            elif lay == "conj-transpose":
+                a = a.conj().T
+            else:
+                big_ = np.zeros((a.shape[0] * 2, a.shape[1] * 2), dtype=a.dtype)
+                big_[::2, ::2] = a
+                a = big_[::2, ::2]
         prev.append(a)
         return a
 
